@@ -80,6 +80,8 @@ pub enum Step {
     WriteConfig(usize),
     Shutdown,
     Cancel(CancelKey),
+    /// record a snapshot of pooler-side state (pool_state, stats registries, ban lists)
+    Probe,
 }
 
 impl Step {
@@ -100,6 +102,7 @@ impl Step {
             Step::WriteConfig(i) => format!("write-config(v{})", i),
             Step::Shutdown => "shutdown".into(),
             Step::Cancel(k) => format!("cancel({:?})", k),
+            Step::Probe => "probe".into(),
         }
     }
 }
@@ -634,6 +637,7 @@ impl World {
                     flag.store(false, Ordering::Relaxed);
                 });
             }
+            Step::Probe => self.probe(),
             Step::Shutdown => {
                 self.admin_only = true;
                 let _ = self.shutdown_tx.send(());
@@ -654,6 +658,64 @@ impl World {
                 }
             }
         }
+    }
+
+    /// Snapshot of pooler-side state through pgcat's public API.
+    pub fn probe(&mut self) {
+        use std::sync::atomic::Ordering as O;
+        let mut pools = Vec::new();
+        let mut bans = Vec::new();
+        let mut all: Vec<_> = pgcat::pool::get_all_pools().into_iter().collect();
+        all.sort_by(|a, b| (a.0.db.clone(), a.0.user.clone()).cmp(&(b.0.db.clone(), b.0.user.clone())));
+        for (id, pool) in &all {
+            for shard in 0..pool.shards() {
+                for server in 0..pool.servers(shard) {
+                    let st = pool.pool_state(shard, server);
+                    let a = pool.address(shard, server);
+                    pools.push(serde_json::json!({
+                        "db": id.db, "user": id.user, "shard": shard, "server": server,
+                        "host": a.host, "role": a.role.to_string(),
+                        "connections": st.connections, "idle": st.idle_connections,
+                    }));
+                }
+            }
+            for (a, (reason, _)) in pool.get_bans() {
+                bans.push(serde_json::json!({"db": id.db, "user": id.user, "host": a.host, "reason": format!("{:?}", reason)}));
+            }
+        }
+        let mut servers: Vec<serde_json::Value> = pgcat::stats::get_server_stats()
+            .values()
+            .map(|s| serde_json::json!({
+                "addr": s.address_name(), "pool": s.pool_name(), "user": s.username(),
+                "state": s.state.load(O::Relaxed).to_string(),
+                "xacts": s.transaction_count.load(O::Relaxed), "queries": s.query_count.load(O::Relaxed),
+                "errors": s.error_count.load(O::Relaxed),
+                "sent": s.bytes_sent.load(O::Relaxed), "received": s.bytes_received.load(O::Relaxed),
+            }))
+            .collect();
+        servers.sort_by_key(|v| v.to_string());
+        let mut clients: Vec<serde_json::Value> = pgcat::stats::get_client_stats()
+            .values()
+            .map(|c| serde_json::json!({
+                "pool": c.pool_name(), "user": c.username(), "app": c.application_name(),
+                "state": c.state.load(O::Relaxed).to_string(),
+                "xacts": c.transaction_count.load(O::Relaxed), "queries": c.query_count.load(O::Relaxed),
+                "errors": c.error_count.load(O::Relaxed),
+            }))
+            .collect();
+        clients.sort_by_key(|v| v.to_string());
+        let mut show_pools: Vec<serde_json::Value> = pgcat::stats::pool::PoolStats::construct_pool_lookup()
+            .values()
+            .map(|p| serde_json::json!({
+                "db": p.identifier.db, "user": p.identifier.user,
+                "cl_idle": p.cl_idle, "cl_active": p.cl_active, "cl_waiting": p.cl_waiting,
+                "sv_active": p.sv_active, "sv_idle": p.sv_idle, "sv_tested": p.sv_tested, "sv_login": p.sv_login,
+            }))
+            .collect();
+        show_pools.sort_by_key(|v| v.to_string());
+        let csm = self.csm.lock().len();
+        let data = serde_json::json!({"pools": pools, "bans": bans, "servers": servers, "clients": clients, "show_pools": show_pools, "csm": csm});
+        self.log(Rec::Probe { data: data.to_string() });
     }
 
     fn state_hash(&self) -> u64 {
@@ -1004,6 +1066,7 @@ pub fn render(log: &[Entry]) -> String {
             Rec::BClose { conn, by } => format!("      B{} closed by {}", conn, by),
             Rec::Panic { msg } => format!("!! PANIC {}", msg),
             Rec::Note { msg } => format!("   # {}", msg),
+            Rec::Probe { data } => format!("   # PROBE {}", data),
         };
         s.push_str(&format!("{:>5} {:>7}ms {}\n", e.seq, e.t_ms, line));
     }
